@@ -27,9 +27,11 @@ KeepX == UNCHANGED <<heldC, heldS, cancelled, over>>
 
 P(r) == IF r.k = "SYN" THEN Syn(r.seq) ELSE [k |-> r.k]
 
-\* (a late SYN answer does not count: the client skips it)
-Stray == \/ \E i \in 1..Len(toC) : toC[i].k = "SYNACK"
-         \/ \E i \in 1..Len(toS) : toS[i].k \in {"SYN", "SYNACK"}
+\* (a late SYN answer does not count: the client skips it; a FIN of an
+\* earlier connection that a stale SYN let through to the data phase ends the
+\* connection like any FIN does)
+Stray == \/ \E i \in 1..Len(toC) : toC[i].k \in {"SYNACK", "FIN"}
+         \/ \E i \in 1..Len(toS) : toS[i].k \in {"SYN", "SYNACK", "FIN"}
 
 TraceInit == Init /\ l = 1 /\ heldC = <<>> /\ heldS = <<>> /\ cancelled = FALSE
              /\ over = FALSE /\ since = [c |-> 0, s |-> 0]
@@ -113,6 +115,10 @@ TResult ==
     \* or stale SYN / SYNACK) is still on its way to an endpoint that is
     \* already in the data phase: that packet ends the connection, visibly
     /\ (cpc = "done" /\ spc = "done" /\ ~Stray) => (Ev.c2s = 1 /\ Ev.s2c = 1)
+    \* and nothing but the peer's own message is ever handed to an application
+    \* (0: nothing yet) - in particular not the payload of a DATA packet of an
+    \* earlier connection
+    /\ Ev.c2sGot \in {0, 1} /\ Ev.s2cGot \in {0, 1}
 
 Handled == {"reset", "inj", "tx", "rx", "hsTimeout", "hsCancel", "hsResult"}
 TSkip == /\ l <= Len(Trace)
